@@ -1,7 +1,7 @@
 (* C04 — Withdrawal pays the pro-rata share: never more, at most dust less.
    Function level (this block): the arithmetic of withdraw_liquidity (Decimal::from_ratio(a, T), reserve * ratio).
    System level (ledger effect, burn of exactly a, nobody else touched) is stated over the world model. *)
-From HT Require Import Base.Prelude Num.Arith Amm.Formulas Proofs.LiquidityProofs.
+From HT Require Import Base.Prelude Num.Arith Amm.Formulas Amm.Guards World.World Proofs.LiquidityProofs Proofs.LedgerProofs.
 
 (* r_i*a/T - r_i/10^18 - 1 < x_i <= r_i*a/T, cross-multiplied *)
 Theorem C04_fn :
@@ -26,6 +26,31 @@ Proof. exact withdraw_total. Qed.
 Example C04_nonvacuous : withdraw_amounts 1000000 3000001 333 1000 = Ok (333000, 999000).
 Proof. vm_compute. reflexivity. Qed.
 
+(* ---- system level: the withdrawal handler on the world model ---- *)
+Theorem C04_structure : forall w p ps sender amount w', pair_withdraw w p ps sender amount = Ok w' ->
+  exists total x0 x1 w1 w2,
+    token_supply w (p_lp ps) = Ok total /\
+    withdraw_amounts (bal w (p_a0 ps) p) (bal w (p_a1 ps) p) amount total = Ok (x0, x1) /\
+    pay_asset w p (p_a0 ps) x0 sender = Ok w1 /\ pay_asset w1 p (p_a1 ps) x1 sender = Ok w2 /\
+    with_token w2 (p_lp ps) (fun t => tok_burn t p amount) = Ok w'.
+Proof. exact pair_withdraw_structure. Qed.
+(* pays x_i to the holder out of the pair, burns exactly [amount] of supply out of the pair's LP
+   balance (which the holder's Send just delivered), and takes nothing from anyone else *)
+Theorem C04_sys : forall w p ps sender amount w', pair_withdraw w p ps sender amount = Ok w' ->
+  asset_eqb (p_a0 ps) (p_a1 ps) = false -> asset_eqb (p_a0 ps) (AToken (p_lp ps)) = false ->
+  asset_eqb (p_a1 ps) (AToken (p_lp ps)) = false -> sender <> p ->
+  exists total x0 x1,
+    token_supply w (p_lp ps) = Ok total /\
+    withdraw_amounts (bal w (p_a0 ps) p) (bal w (p_a1 ps) p) amount total = Ok (x0, x1) /\
+    supply w' (p_lp ps) + amount = total /\
+    bal w' (AToken (p_lp ps)) p + amount = bal w (AToken (p_lp ps)) p /\
+    bal w' (p_a0 ps) sender = bal w (p_a0 ps) sender + x0 /\ bal w' (p_a0 ps) p + x0 = bal w (p_a0 ps) p /\
+    bal w' (p_a1 ps) sender = bal w (p_a1 ps) sender + x1 /\ bal w' (p_a1 ps) p + x1 = bal w (p_a1 ps) p /\
+    (forall z a, a <> p -> a <> sender -> bal w' z a = bal w z a).
+Proof. exact pair_withdraw_effect. Qed.
+
+Print Assumptions C04_structure.
+Print Assumptions C04_sys.
 Print Assumptions C04_fn.
 Print Assumptions C04_le_reserve.
 Print Assumptions C04_total.
